@@ -58,6 +58,9 @@ is_6531_local (const char *start, const char *end)
 
         /* skip non-ASCII characters */
         if (ch > 0x007f) {
+            /* quoted-pairSMTP = %d92 %d32-126: '\\' cannot escape them */
+            if (qpair)
+                return inverse(EEAV_LPART_NOT_ASCII);
             prev = utf8_decode_at_byte (&u);
             continue;
         }
